@@ -1066,11 +1066,14 @@ pub fn container_boundaries(c: &[u8]) -> Vec<usize> {
 }
 
 pub fn c11_case(seed: u64, idx: u64) -> CaseOut {
-    let mut r = Rng::new(seed ^ 0x11 ^ idx.wrapping_mul(0x9E3779B97F4A7C15));
-    let mut out = CaseOut::default();
+    let r = Rng::new(seed ^ 0x11 ^ idx.wrapping_mul(0x9E3779B97F4A7C15));
     let fc = file_case(seed ^ 0x1111, idx, 20000);
-    let f = fc.bytes;
-    let label = fc.label;
+    c11_file(fc.bytes, fc.label, r)
+}
+
+/// the C11 oracle on one file (also what `--replay` runs for a recorded C11 failure)
+pub fn c11_file(f: Vec<u8>, label: String, mut r: Rng) -> CaseOut {
+    let mut out = CaseOut::default();
     let replay = format!("file {}", hex(&f));
     crate::util::in_flight(&replay);
     let fail = |sig: String, detail: String| Failure { kind: "oracle".into(), signature: sig, detail: format!("{detail} [{label}]"), replay: replay.clone() };
@@ -1179,11 +1182,14 @@ fn call_decompress(input: &[u8], cap: usize) -> (i32, u64, bool, Vec<u8>) {
 }
 
 pub fn c12_case(seed: u64, idx: u64) -> CaseOut {
-    let mut r = Rng::new(seed ^ 0x12 ^ idx.wrapping_mul(0x9E3779B97F4A7C15));
-    let mut out = CaseOut::default();
+    let r = Rng::new(seed ^ 0x12 ^ idx.wrapping_mul(0x9E3779B97F4A7C15));
     let fc = file_case(seed ^ 0x1212, idx, 8000);
-    let f = fc.bytes;
-    let label = fc.label;
+    c12_file(fc.bytes, fc.label, r)
+}
+
+/// the C12 oracle on one file (also what `--replay` runs for a recorded C12 failure)
+pub fn c12_file(f: Vec<u8>, label: String, mut r: Rng) -> CaseOut {
+    let mut out = CaseOut::default();
     let replay = format!("file {}", hex(&f));
     crate::util::in_flight(&replay);
     let fail = |sig: String, detail: String| Failure { kind: "oracle".into(), signature: sig, detail: format!("{detail} [{label}]"), replay: replay.clone() };
@@ -1708,7 +1714,15 @@ pub fn replay(ctx: &Ctx, prop: &str, path: &str) -> bool {
                 }
                 last_file = Some(f.clone());
                 match prop {
-                    "C11" | "C12" | "C06" | "C14" => report(c01_bytes(&f, "replay", true)),
+                    "C11" => {
+                        report(c01_bytes(&f, "replay", true));
+                        report(c11_file(f.clone(), "replay".into(), Rng::new(ctx.seed ^ 0x11)));
+                    }
+                    "C12" => {
+                        report(c01_bytes(&f, "replay", true));
+                        report(c12_file(f.clone(), "replay".into(), Rng::new(ctx.seed ^ 0x12)));
+                    }
+                    "C06" | "C14" => report(c01_bytes(&f, "replay", true)),
                     _ => report(c01_bytes(&f, "replay", true)),
                 }
             }
